@@ -11,6 +11,13 @@ Letters  == {<<97>>, <<44>>, CNT, <<32>>, <<49>>} \cup (IF WithMinus THEN {<<45>
 MCPats   == {<<97>>, CNT, <<44>>, <<97, 97>>}
 MCDelims == {<<44>>, <<97, 44>>}
 
+\* second family (Parser.wide.cfg): multi-byte characters that share bytes at different positions and
+\* characters at the ends of the 2- and 3-byte encodings, to stress the char-boundary rounding of skip /
+\* skip_back and the byte-wise search under the string operations
+WideLetters == {CSQRT, CSQRT2, Encode(65535), Encode(2047), <<97>>}
+WidePats    == {CSQRT, Encode(65535), <<97>>, CSQRT \o CSQRT2}
+WideDelims  == {CSQRT2, <<97>> \o Encode(65535)}
+
 MCOrigs == StrsUpTo(Letters, MaxChars)
 OpSeq   == SetToSeq(OpSet)
 
